@@ -206,6 +206,52 @@ func c14RunLarge(c c14Case, st *fw.Stats) []fw.Viol {
 	case 2:
 		hist = append(hist, step{"del", N / 2}, step{"set", N}, step{"get", 0}, step{"set", N + 1}, step{"get", 0}, step{"get", 1}, step{"get", N / 2})
 	}
+	if c.Keys == 5 {
+		// a caching router whose routes were ALL registered through Route.AttachTo: a resolved dynamic request is in the cache
+		st.Evals++
+		st.Nontrivial++
+		r := rux.New(rux.CachingWithNum(uint16(N)))
+		rux.NewRoute("/p/{id}", func(*rux.Context) {}, "GET").AttachTo(r)
+		rux.NewNamedRoute("q", "/q/{id}/{x}", func(*rux.Context) {}, "GET").AttachTo(r)
+		for _, p := range []string{"/p/1", "/q/1/2"} {
+			if m, _, _ := r.Match("GET", p); m == nil {
+				addViol("router:large:match", fmt.Sprintf("routes registered with AttachTo on a router with CachingWithNum(%d): GET %s matched no route", N, p))
+				return viols
+			}
+			cache := r.VerifCache()
+			if cache == nil || !cache.Has("GET"+p) {
+				addViol("cache-entry:absent-or-not-most-recent", fmt.Sprintf("routes registered with Route.AttachTo only, on a router with CachingWithNum(%d): after GET %s was resolved the cache holds no entry for it (cache container present: %v)", N, p, cache != nil))
+				return viols
+			}
+		}
+		return viols
+	}
+	if c.Keys == 6 {
+		// many evictions in a row: N+700 distinct keys; after every insertion the list and the index agree, the bound
+		// holds and the key that was just evicted is gone
+		impl := rux.NewCachedRoutes(N)
+		for i := 0; i < N+700; i++ {
+			st.Evals++
+			st.Transitions++
+			impl.Set(key(i), c14Routes[(i%8)*2])
+			want := i + 1
+			if want > N {
+				want = N
+			}
+			_, _, ll, ml, _ := impl.VerifSnapshot()
+			if ll != want || ml != want || impl.Len() != want {
+				addViol("lru:invariant:list-map", fmt.Sprintf("capacity=%d: after storing %d distinct keys (%d evictions): list %d, index %d, Len() %d; a bounded LRU holds %d", N, i+1, max(0, i+1-N), ll, ml, impl.Len(), want))
+				return viols
+			}
+			if i >= N && impl.Has(key(i-N)) {
+				addViol("lru:large:eviction", fmt.Sprintf("capacity=%d: storing the %d-th distinct key (eviction #%d) did not evict the least recently used key k%d: it is still answered", N, i+1, i+1-N, i-N))
+				return viols
+			}
+		}
+		st.Inc("evictions", 700)
+		st.Nontrivial++
+		return viols
+	}
 	if c.Keys == 4 {
 		// the largest capacities (65535 is the most the router option can ask for): N+2 distinct keys are stored one by
 		// one, once directly and once as requests on a router; the expectations are arithmetic (length = min(i, N); the
@@ -438,7 +484,7 @@ var c14Spec = fw.Spec[c14Case]{
 	ID:         "C14",
 	Level:      "model_checking",
 	StateGraph: true,
-	Rule: "explicit-state search to fix-point: every reachable state of the real cachedRoutes (canonical form = keys and value ids in recency order, read through the verif hook) x every operation of {Set(k,v0|v1),Get(k),Has(k),Delete(k),Len()} compared with refmodel.LRU; capacities {8,64,255,256,257,300,1000,1024,4097}: four fixed fill-past-capacity histories each (plain, refresh the oldest first, delete one first, as requests on a router configured with that capacity) compared with the model after every operation; capacities {65534,65535,65536,70000}: N+2 distinct keys stored one by one (directly, and as requests on a router where the option allows the capacity) against arithmetic expectations; " +
+	Rule: "explicit-state search to fix-point: every reachable state of the real cachedRoutes (canonical form = keys and value ids in recency order, read through the verif hook) x every operation of {Set(k,v0|v1),Get(k),Has(k),Delete(k),Len()} compared with refmodel.LRU; capacities {8,64,255,256,257,300,1000,1024,4097}: four fixed fill-past-capacity histories each (plain, refresh the oldest first, delete one first, as requests on a router configured with that capacity) compared with the model after every operation; capacities {65534,65535,65536,70000}: N+2 distinct keys stored one by one (directly, and as requests on a router where the option allows the capacity) against arithmetic expectations; capacities {1,2,3,4,64,255}: 700 evictions in a row with list / index / bound / evicted key checked after each; caching routers whose routes are all registered through Route.AttachTo; " +
 		"router clause: every request history (BFS to fix-point over cache states) on caching routers; a state is non-trivial/distinct when its canonical form was not seen before",
 	Assume: []string{
 		"cache states are observed through the build-tag-guarded read-only accessor VerifSnapshot",
@@ -468,6 +514,12 @@ var c14Spec = fw.Spec[c14Case]{
 			for h := 0; h < 4; h++ {
 				emit(c14Case{Kind: "lru-large", Cap: n, Keys: h})
 			}
+		}
+		for _, n := range []int{1, 2, 3, 4, 64, 255} {
+			emit(c14Case{Kind: "lru-large", Cap: n, Keys: 6})
+		}
+		for _, n := range []int{1, 4, 1000} {
+			emit(c14Case{Kind: "lru-large", Cap: n, Keys: 5})
 		}
 		for _, n := range []int{65534, 65535, 65536, 70000} {
 			emit(c14Case{Kind: "lru-large", Cap: n, Keys: 4})
